@@ -6,6 +6,9 @@ import Drv.Loader
 import Drv.Locks
 import Drv.TextMatch
 import Drv.Comment
+import Drv.Loads
+import Drv.Imports
+import Drv.AdapterC19
 /-!
 Line-protocol driver: one operation per line on stdin, one canonical answer line on stdout.
 Every engine exports `handle : List String → Option String` answering only its own ops;
@@ -21,7 +24,10 @@ def handlers : List (List String → Option String) := [
   Drv.LoaderD.handle,
   Drv.Locks.handle,
   Drv.TextMatch.handle,
-  Drv.Comment.handle
+  Drv.Comment.handle,
+  Drv.Loads.handle,
+  Drv.Imports.handle,
+  Drv.AdapterC19.handle
 ]
 
 def dispatch (fs : List String) : Option String :=
